@@ -16,6 +16,18 @@
 
   Replay bookkeeping that is not part of any model: `ctx` remembers which wait API an actor is in, because
   `wait_while` calls `wait` internally without `call`/`ret` markers.
+
+  LIVE traces (family `condvar_live`, header `live=1`: coroutines `c:c<k>` and threads `t<k>` on the real runtime,
+  filter condvar.rs + mutex.rs + blocking.rs): the blockers' own park / unpark produce no events (`Park` is filtered out,
+  `ThreadPark` is real), so `n1unpark`/`a1unpark` (blocker.unpark), the end of the park and the Mutex model's silent
+  steps (`Mutex.silent`) are SILENT steps taken when the actor's next event needs them. Whether a park returned Ok or
+  Err is not visible when the actor starts to re-lock the mutex (the events of `Mutex::lock` are the same); the machine
+  therefore lets the Mutex model run the re-lock with the condvar actor still at `w3park` (`relock`), and executes the
+  condvar steps `park returned Ok | Err` and the spec `lock` – in this order, unchanged – at the actor's first event
+  after the grant: `unparked.load` of its own blocker means Err, anything else Ok (which needs the token: delivered, or
+  deliverable by the notifier that popped the blocker). These late steps touch only the owner's token and ghost fields,
+  so the delay commutes with every other actor's step. `wend` (the `ret == Err(Canceled)` test of wait/wait_timeout)
+  is resolved by the next event as well: a `ret` means time-out, the events of `unlock_mutex` the cancel path.
 -/
 import MayVerif.Core.Trace
 import MayVerif.Model.Sync.Condvar
@@ -42,7 +54,8 @@ def label (sh : Sh) (pc : Pc) (e : Env) : Label :=
         res := if sh.bound then .id "maddr" 0 else .num 0, flag := some (if sh.bound then 0 else 1), ord := "SeqCst" }
   | .idle, _ | .held, _ => { kind := "none", op := "-" }
   | .w1push b _, _ => { obj := "sync.condvar.to_wake", inst := cvI, op := "q.push", a1 := bid b }
-  | .w3park b _, .abort | .w3park b _, .cancel => { kind := "blk", obj := "tp", inst := bl b, op := "park_return", res := .num 0 }
+  | .w3park b _, .abort => { kind := "blk", obj := "tp", inst := bl b, op := "park_return", res := .num 0 }
+  | .wend _, _ => { kind := "none", op := "wait: ret == Err(Canceled) ?" }
   | .w3park b _, _ => { kind := "blk", obj := "tp", inst := bl b, op := "park_return", res := .num 1 }
   | .w5load b _, _ | .w7load b _, _ =>
       { obj := "sync.blocking.unparked", inst := bl b, op := "load", res := .num (b2i (sh.unparked b)), ord := "SeqCst" }
@@ -58,7 +71,7 @@ def label (sh : Sh) (pc : Pc) (e : Env) : Label :=
 def pcName : Pc → String
   | .idle => "idle" | .held => "held" | .w1push .. => "w1push" | .w2unlock .. => "w2unlock" | .w3park .. => "w3park"
   | .w4lockOk => "w4lockOk" | .w4lockE .. => "w4lockE" | .w5load .. => "w5load" | .w6set .. => "w6set"
-  | .w7load .. => "w7load" | .w8swap .. => "w8swap" | .w9unlock => "w9unlock" | .wdone _ => "wdone"
+  | .w7load .. => "w7load" | .w8swap .. => "w8swap" | .wend _ => "wend" | .w9unlock => "w9unlock" | .wdone _ => "wdone"
   | .n0pop _ => "n0pop" | .n1unpark .. => "n1unpark" | .n2store .. => "n2store" | .n3swap .. => "n3swap"
   | .a0pop _ => "a0pop" | .a1unpark .. => "a1unpark" | .a2store .. => "a2store"
 
@@ -70,7 +83,8 @@ def transName (sh : Sh) (pc : Pc) (e : Env) : String :=
     | .idle, .lock => "/lock" | .held, .unlock => "/unlock"
     | .idle, .notifyOne | .held, .notifyOne => "/notify_one" | .idle, .notifyAll | .held, .notifyAll => "/notify_all"
     | .held, .wait d => (if d then "/wait_timeout" else "/wait") ++ (if sh.bound then "/bound" else "/bind")
-    | .w3park _ _, .abort => "/timeout" | .w3park _ _, .cancel => "/cancel" | .w3park _ _, _ => "/woken"
+    | .w3park _ _, .abort => "/err" | .w3park _ _, _ => "/woken"
+    | .wend _, .cancel => "/cancel" | .wend _, _ => "/timeout"
     | .w5load b _, _ | .w7load b _, _ => if sh.unparked b then "/unparked" else "/not"
     | .w8swap b _, _ | .n3swap b _, _ => if sh.release b then "/forward" else "/done"
     | .n0pop k, _ | .a0pop k, _ => kName k ++ (if sh.q.isEmpty then "/empty" else "/some")
@@ -84,6 +98,9 @@ structure PSt where
   mx : Mutex.St
   ctx : Nat → Nat := fun _ => 0   -- 0 none, 1 `wait`, 2 `wait_timeout`, 3 `wait_while`
   err : Option String := none
+  live : Bool := false
+  /-- live: the actor has left its park and re-locks the mutex; the condvar model is still at `w3park` -/
+  relock : Nat → Bool := fun _ => false
 
 def mquiet (pc : Mutex.Pc) : Bool := pc == .idle || pc == .held
 
@@ -95,6 +112,9 @@ def reLabel (l : Label) : Label :=
   { l with inst := l.inst.map (fun p => if p.1 == "blk" then (p.1, 2 * p.2) else p),
            a1 := reArg l.a1, a2 := reArg l.a2, res := reArg l.res }
 
+def setCtx (ps : PSt) (t : Nat) (v : Nat) : PSt := { ps with ctx := fun u => if u = t then v else ps.ctx u }
+def setRelock (ps : PSt) (t : Nat) (v : Bool) : PSt := { ps with relock := fun u => if u = t then v else ps.relock u }
+
 /-- inside `wait_while` a finished internal `wait` returns to the loop without a `ret` marker -/
 def settle (ps : PSt) (t : Nat) : PSt :=
   match ps.cv.pcs t with
@@ -105,10 +125,22 @@ def settle (ps : PSt) (t : Nat) : PSt :=
     else ps
   | _ => ps
 
-/-- the Mutex model moved from `mpc0`: when it grants the lock to `t`, the spec `lock` of the condvar model fires -/
+/-- run the condvar steps `es` of actor `t` in order (all must be enabled) -/
+def cvRun (cv : St) (t : Nat) : List Env → Option St
+  | [] => some cv
+  | e :: r => match step cv t e with
+    | some cv' => cvRun cv' t r
+    | none => none
+
+/-- the Mutex model moved from `mpc0`: when it grants the lock to `t`, the spec `lock` of the condvar model fires
+    (for an actor whose park outcome is still open it is only checked to be enabled and fires with the outcome) -/
 def afterMutex (ps : PSt) (mpc0 : Mutex.Pc) (mx' : Mutex.St) (t : Nat) : PSt × String :=
   if mpc0 != .held && mx'.pcs t == .held then
-    match step ps.cv t .lock with
+    if ps.relock t then
+      if ps.cv.sh.locked then
+        ({ ps with mx := mx', err := some s!"the implementation mutex was granted to actor {t} (re-lock in wait) while the spec mutex is held by {ps.cv.sh.owner}" }, "")
+      else ({ ps with mx := mx' }, "")
+    else match step ps.cv t .lock with
     | some cv' => (settle { ps with mx := mx', cv := cv' } t, "+" ++ transName ps.cv.sh (ps.cv.pcs t) .lock)
     | none => ({ ps with mx := mx', err := some s!"the implementation mutex was granted to actor {t} at {pcName (ps.cv.pcs t)} while the spec mutex is held by {ps.cv.sh.owner}" }, "")
   else ({ ps with mx := mx' }, "")
@@ -119,9 +151,9 @@ def viaMutex (ps : PSt) (mx0 : Mutex.St) (t : Nat) (ev : Event) (pre : String) :
     let (ps', sfx) := afterMutex ps (ps.mx.pcs t) mx' t
     (reLabel l, ps', pre ++ "mx." ++ nm ++ sfx)
 
-def envsFor : Pc → List Env
-  | .w3park .. => [.go, .abort]
-  | .idle | .held | .wdone _ | .w2unlock .. | .w9unlock | .w4lockOk | .w4lockE .. => []
+def envsFor (live : Bool) : Pc → List Env
+  | .w3park .. => if live then [] else [.go, .abort]
+  | .idle | .held | .wdone _ | .wend _ | .w2unlock .. | .w9unlock | .w4lockOk | .w4lockE .. => []
   | _ => [.go]
 
 def cvSteps (ps : PSt) (t : Nat) (envs : List Env) (lab : Label → Label := id) : List (Label × PSt × String) :=
@@ -130,9 +162,8 @@ def cvSteps (ps : PSt) (t : Nat) (envs : List Env) (lab : Label → Label := id)
     | some cv' => some (lab (label ps.cv.sh (ps.cv.pcs t) e), settle { ps with cv := cv' } t, transName ps.cv.sh (ps.cv.pcs t) e)
     | none => none
 
-def setCtx (ps : PSt) (t : Nat) (v : Nat) : PSt := { ps with ctx := fun u => if u = t then v else ps.ctx u }
-
-def cands (ps : PSt) (t : Nat) (ev : Event) : List (Label × PSt × String) :=
+/-- the steps that explain one event directly -/
+def core (ps : PSt) (t : Nat) (ev : Event) : List (Label × PSt × String) :=
   let cpc := ps.cv.pcs t
   let mpc := ps.mx.pcs t
   let obs (ok : Bool) (ps' : PSt) : List (Label × PSt × String) :=
@@ -181,11 +212,63 @@ def cands (ps : PSt) (t : Nat) (ev : Event) : List (Label × PSt × String) :=
     | .w3park b d =>
         if ev.kind == "blk" && ev.op == "park_enter" then
           [({ kind := "blk", obj := "tp", inst := bl b, op := "park_enter", a1 := .num (b2i d) }, ps, "park_enter")]
-        else cvSteps ps t (envsFor cpc)
+        else cvSteps ps t (envsFor ps.live cpc)
     | .held =>
         -- the first operation of a wait (the API was announced by a `call`, or we are inside `wait_while`)
         if ps.ctx t != 0 && mpc == .held then cvSteps ps t [.wait (ps.ctx t == 2)] else []
-    | _ => cvSteps ps t (envsFor cpc)
+    | _ => cvSteps ps t (envsFor ps.live cpc)
+
+/-- the silent steps available to actor `t`: successor and name -/
+def silent (ps : PSt) (t : Nat) : List (PSt × String) :=
+  let cpc := ps.cv.pcs t
+  let mpc := ps.mx.pcs t
+  -- (all modes) `if ret == Err(ParkError::Canceled)` after wait_impl returned an error: no shared-memory operation
+  (match cpc with
+   | .wend _ =>
+       (match step ps.cv t .go with | some cv' => [(settle { ps with cv := cv' } t, "wend/timeout~")] | none => []) ++
+       (match step ps.cv t .cancel with | some cv' => [(setCtx { ps with cv := cv' } t 0, "wend/cancel~")] | none => [])
+   | _ => []) ++
+  (if !ps.live then [] else
+    -- the Mutex model's own silent steps (blocker.unpark, end of its park, cancel of a blocked lock)
+    (if mquiet mpc then [] else
+      (Mutex.silent ps.mx t).map fun (mx1, nm) =>
+        let (ps', sfx) := afterMutex ps mpc mx1 t
+        (ps', "mx." ++ nm ++ sfx)) ++
+    (match cpc with
+     -- `w.blocker.unpark()` has no event
+     | .n1unpark .. | .a1unpark .. =>
+         (match step ps.cv t .go with | some cv' => [({ ps with cv := cv' }, pcName cpc ++ "~")] | none => [])
+     | .w3park b _ =>
+         if !ps.relock t then
+           -- the park is over (outcome open): `lock.lock()` starts
+           (if mpc == .idle then match Mutex.step ps.mx t .startLock with
+              | some mx0 => [(setRelock { ps with mx := mx0 } t true, "w3park/left~")]
+              | none => []
+            else [])
+         else if mpc == .held then
+           -- the re-lock is granted: now the park outcome and the spec lock fire
+           let err := match cvRun ps.cv t [.abort, .lock] with
+             | some cv' => [(setRelock { ps with cv := cv' } t false, "w3park/err~+w4lockE")]
+             | none => []
+           let cv0 : Option St :=
+             if ps.cv.sh.tok b then some ps.cv
+             else ((List.range ps.cv.n).find? fun u => match ps.cv.pcs u with
+                     | .n1unpark w _ | .a1unpark w _ => w == b | _ => false).bind fun u => step ps.cv u .go
+           let ok := match cv0.bind fun c => cvRun c t [.go, .lock] with
+             | some cv' => [(settle (setRelock { ps with cv := cv' } t false) t, "w3park/woken~+w4lockOk")]
+             | none => []
+           err ++ ok
+         else []
+     | _ => []))
+
+/-- candidates: the direct ones, then those after one, two or three silent steps of the actor -/
+def cands (ps : PSt) (t : Nat) (ev : Event) : List (Label × PSt × String) :=
+  let lift (alts : List (PSt × String)) : List (Label × PSt × String) :=
+    alts.flatMap fun (p1, nm1) => (core p1 t ev).map fun (l, p', nm) => (l, p', nm1 ++ "+" ++ nm)
+  let s1 := silent ps t
+  let s2 := s1.flatMap fun (p1, nm1) => (silent p1 t).map fun (p2, nm2) => (p2, nm1 ++ "+" ++ nm2)
+  let s3 := s2.flatMap fun (p2, nm2) => (silent p2 t).map fun (p3, nm3) => (p3, nm2 ++ "+" ++ nm3)
+  core ps t ev ++ lift s1 ++ lift s2 ++ lift s3
 
 def holders (s : Mutex.St) : Nat := (List.range s.n).countP fun t => s.pcs t == .held
 
@@ -196,21 +279,29 @@ def inv (ps : PSt) : Option String :=
     if holders ps.mx > 1 then some "two holders of the mutex"
     else if ps.mx.sh.dup then some "double re-post in the mutex"
     else if ps.cv.sh.dup then some "a notification was forwarded twice for one blocker"
-    else if (List.range ps.cv.n).any (fun t => holdsM (ps.cv.pcs t) != (ps.mx.pcs t == .held)) then
+    else if (List.range ps.cv.n).any (fun t => !ps.relock t && holdsM (ps.cv.pcs t) != (ps.mx.pcs t == .held)) then
       some "spec mutex holder differs from the Mutex model's holder"
     else if (List.range ps.cv.n).any (fun t => holdsM (ps.cv.pcs t) && !(ps.cv.sh.locked && ps.cv.sh.owner == t)) then
       some "an actor inside the locked region does not own the spec mutex"
     else none
 
+/-- trace actor ↦ model actor: threads `t<k>`; in live traces also coroutines named `c<k>` (`c:c<k>`), one index space -/
+def actorOf (s : PSt) (a : String) : Option Nat :=
+  let idx : Option Nat :=
+    if a.startsWith "t" then (a.drop 1).toString.toNat?
+    else if s.live && a.startsWith "c:c" then (a.drop 3).toString.toNat?
+    else none
+  idx.bind fun t => if t < s.cv.n then some t else none
+
 def machine : Machine where
   St := PSt
   init := fun h => match hnat h "actors" with
-    | some n => .ok { cv := init n, mx := Mutex.init n 1 }
+    | some n => .ok { cv := init n, mx := Mutex.init n 1, live := hget h "live" == some "1" }
     | none => .error "condvar scenario without actors="
-  actor := fun s a => if a.startsWith "t" then ((a.drop 1).toString.toNat?).bind (fun t => if t < s.cv.n then some t else none) else none
+  actor := actorOf
   cands := cands
   inv := inv
-  where_ := fun s t => s!"cv:{pcName (s.cv.pcs t)} mutex:{Mutex.pcName (s.mx.pcs t)} ctx={s.ctx t}"
+  where_ := fun s t => s!"cv:{pcName (s.cv.pcs t)} mutex:{Mutex.pcName (s.mx.pcs t)} ctx={s.ctx t}{if s.relock t then " (re-locking)" else ""}"
   atEnd := fun s =>
     if (List.range s.cv.n).all (fun t => s.cv.pcs t == .idle && s.mx.pcs t == .idle) then
       (if s.mx.sh.cnt == 1 && s.mx.sh.q.isEmpty && !s.cv.sh.locked then none
